@@ -67,4 +67,41 @@ example : Reach exG 10 40 := by
   have h1 : Reach exG 10 30 := Reach.tail (b := 10) (c := 30) (n := .layers 3 0) (Reach.refl 10) (by decide) (by decide)
   exact Reach.tail (b := 30) (c := 40) (n := .glyph 9 (some 40)) h1 (by decide) (by decide)
 
+/-! ## the hypothesis under which completeness holds (completeness itself: NOT proved, see reports/C17.md)
+
+`BelowLimit G gs`: every path of the paint graph from a retained colour glyph's root paint ends after fewer than 64 edges
+(a DAG of height < 64 below the roots; sharing allowed, cycles excluded).  Decidable.  Under it `dispatch` never meets
+`nesting_level_left == 0`, and the DFS with its visited set then visits every reachable paint; the proof of
+`v1_palette_indices_complete_below_limit` (visited set closed under `children` outside the current stack) did not fit the
+time slot and is left as the model-independent oracle `v1-closure-complete-below-nesting-limit` + the `colr-v1pal`
+correspondence on both sides of the limit (harness/src/bin/c17/palx.rs). -/
+
+def heightLe (G : Graph) : Nat → Nat → Bool
+  | 0, _ => false
+  | k + 1, pos =>
+    match G.node pos with
+    | none => true
+    | some n => (children G n).all (heightLe G k)
+
+def BelowLimit (G : Graph) (gs : List Nat) : Bool := (rootsOf G gs).all (heightLe G 64)
+
+/-- base glyph 1 → a chain of `n` PaintTranslate → PaintSolid(palette 7)  (the synthetic family `syn:colr-nest-n`) -/
+def chainG (n : Nat) : Graph :=
+  { node := fun p => if p < n then some (.unary (some (p + 1)) none) else if p = n then some (.solid 7 none) else none
+    layerList := none
+    baseList := some [(1, some 0)] }
+
+/-- 63 nested transforms: below the limit, and the closure collects the solid's palette index -/
+example : BelowLimit (chainG 63) [1] = true := by decide +kernel
+example : (v1Roots (chainG 63) [1]).palettes = [7] := by decide +kernel
+/-- 64 nested transforms (the shape of known finding C17-colr-nesting-limit): the hypothesis fails and the reachable
+solid's palette index is NOT collected — completeness is false without the hypothesis -/
+example : BelowLimit (chainG 64) [1] = false := by decide +kernel
+example : (v1Roots (chainG 64) [1]).palettes = [] := by decide +kernel
+example : Reach (chainG 2) 0 2 := by
+  have h1 : Reach (chainG 2) 0 1 := Reach.tail (b := 0) (c := 1) (n := .unary (some 1) none) (Reach.refl 0) (by decide) (by decide)
+  exact Reach.tail (b := 1) (c := 2) (n := .unary (some 2) none) h1 (by decide) (by decide)
+/-- a cyclic graph is never below the limit (but the traversal still terminates: visited set) -/
+example : BelowLimit exG [6] = false := by decide +kernel
+
 end FontVerif.C17ColrPalV1
